@@ -112,22 +112,53 @@ def run_conc(lines, nthreads_hint=3, release=False):
         cp = os.path.join(d, "cases_%s_%d.txt" % (tag, i))
         _write_lines(cp, ch)
         cpaths.append(cp)
+    # probe: exit code 3 = the sources lack the yield hook
+    probe = os.path.join(d, "probe_%s.txt" % tag)
+    _write_lines(probe, ["0 0 0 0 0"])
+    q = subprocess.run([exe, "conc", probe], stdout=subprocess.PIPE, stderr=subprocess.PIPE, text=True, timeout=120)
+    if q.returncode == 3:
+        raise RuntimeError("the specs sources lack the C10 yield hook (verif_sched): apply hooks/c10_yield.patch")
     impl_chunks = _run_chunks([[exe, "conc", cp] for cp in cpaths], timeout=3600)
     impl = []
+    singles = [0]
+
+    def one_by_one(cases):
+        out = []
+        one = os.path.join(d, "one_%s.txt" % tag)
+        for c in cases:
+            if singles[0] >= 1500:
+                out.append("98")          # budget exhausted: counted as a crash
+                continue
+            singles[0] += 1
+            _write_lines(one, [c])
+            try:
+                q = subprocess.run([exe, "conc", one], stdout=subprocess.PIPE, stderr=subprocess.DEVNULL, text=True,
+                                   timeout=60)
+                out.append(q.stdout.strip().split("\n")[0] if q.returncode == 0 and q.stdout.strip() else "98")
+            except subprocess.TimeoutExpired:
+                out.append("98")
+        return out
+
     for ch, cp, out in zip(chunks, cpaths, impl_chunks):
         if out is None or len(out) != len(ch):
-            # the process died or hung (possible under a mutation): one case at a time
-            log("harness failed on a chunk; re-running one case at a time")
+            # the process died or hung (possible under a mutation): narrow down, then one case at a time
+            log("harness failed on a chunk; narrowing down")
             out = []
-            one = os.path.join(d, "one_%s.txt" % tag)
-            for c in ch:
-                _write_lines(one, [c])
+            sub = [ch[i:i + 500] for i in range(0, len(ch), 500)]
+            spaths = []
+            for i, sc in enumerate(sub):
+                sp = os.path.join(d, "sub_%s_%d.txt" % (tag, i))
+                _write_lines(sp, sc)
+                spaths.append(sp)
+            for g in range(0, len(sub), 4):
+                souts = _run_chunks([[exe, "conc", sp] for sp in spaths[g:g + 4]], timeout=600)
+                for sc, so in zip(sub[g:g + 4], souts):
+                    out.extend(so if so is not None and len(so) == len(sc) else one_by_one(sc))
+            for sp in spaths:
                 try:
-                    q = subprocess.run([exe, "conc", one], stdout=subprocess.PIPE, stderr=subprocess.DEVNULL, text=True,
-                                       timeout=60)
-                    out.append(q.stdout.strip().split("\n")[0] if q.returncode == 0 and q.stdout.strip() else "98")
-                except subprocess.TimeoutExpired:
-                    out.append("98")
+                    os.remove(sp)
+                except OSError:
+                    pass
         impl.extend(out)
     ipaths = []
     for i, ch in enumerate(chunks):
